@@ -224,7 +224,7 @@ func runC03(r *Run, rng *rand.Rand, thorough bool) {
 		}
 	}
 	// ECDSA
-	ecCfg := [][2]int{{2, 1}, {3, 1}}
+	ecCfg := [][2]int{{2, 1}, {3, 1}, {4, 3}}
 	if thorough {
 		ecCfg = [][2]int{{2, 1}, {3, 1}, {3, 2}, {4, 2}, {5, 2}, {5, 4}}
 	}
